@@ -1,3 +1,4 @@
+import Mrpro.Lemmas.SrcL
 import Mrpro.Model.Resample
 import Mrpro.Lemmas.ResampleL
 /-! # C20 — resampling operators interpolate and integrate as specified -/
@@ -59,5 +60,12 @@ theorem lerpAt_convex (n : Nat) (img : Int → Rat) (c : Rat) :
 /-- a linear ramp is reproduced exactly inside the image -/
 theorem lerpAt_linear (n : Nat) (α β c : Rat) (h0 : 0 ≤ c) (h1 : c ≤ (n : Rat) - 1) :
     lerpAt n (fun i => α * i + β) c = α * c + β := M.lerpAt_linear n α β c h0 h1
+
+/-! ### Tie to the source: integer code translated from `/repo` on this run -/
+
+/-- `SliceProjectionOp.projection_matrix`: the output window is centred in the input volume -/
+theorem src_sliceproj_start (nx ox ny oy : Nat) (hx : ox ≤ nx) (hy : oy ≤ ny) :
+    M.Src.sliceproj_start nx ox ny oy = ((((nx - ox) / 2 : Nat) : Int), (((ny - oy) / 2 : Nat) : Int)) :=
+  M.SrcL.sliceproj_start_eq nx ox ny oy hx hy
 
 end C20
